@@ -197,26 +197,42 @@ func (g *G[P, F, S]) fromElem(el elem[P], prj bool) opnd[P] {
 	return o
 }
 
+// uniform draws a nearly uniform value in [0, n) out of single bits: rapid's integer generators
+// are deliberately biased towards small values, which starves the classes at the end of a list.
+func uniform(t *rapid.T, label string, n int) int {
+	bits := 3
+	for 1<<(bits-3) < n {
+		bits++
+	}
+	v := 0
+	for i, b := range rapid.SliceOfN(rapid.Bool(), bits, bits).Draw(t, label) {
+		if b {
+			v |= 1 << i
+		}
+	}
+	return v % n
+}
+
 // drawOpnd draws an operand: with probability pSpecial% one of the exceptional classes, else a
 // drawn multiple of G (one pool entry, or the sum / difference of two entries computed by the
 // library next to the model).
 func (g *G[P, F, S]) drawOpnd(t *rapid.T, label string, pSpecial int, subOnly bool) opnd[P] {
 	pl := g.pl
 	prj := rapid.Bool().Draw(t, label+"/prj")
-	if rapid.IntRange(0, 99).Draw(t, label+"/special") < pSpecial {
+	if uniform(t, label+"/special", 100) < pSpecial {
 		for {
-			i := rapid.IntRange(0, len(pl.sp)-1).Draw(t, label+"/class")
+			i := uniform(t, label+"/class", len(pl.sp))
 			if subOnly && !pl.sp[i].sub {
 				continue
 			}
 			return g.fromElem(pl.sp[i], prj)
 		}
 	}
-	i := rapid.IntRange(0, len(pl.rnd)-1).Draw(t, label+"/i")
+	i := uniform(t, label+"/i", len(pl.rnd))
 	o := g.fromElem(pl.rnd[i], prj)
-	switch rapid.IntRange(0, 2).Draw(t, label+"/combine") {
+	switch uniform(t, label+"/combine", 3) {
 	case 1:
-		j := rapid.IntRange(0, len(pl.rnd)-1).Draw(t, label+"/j")
+		j := uniform(t, label+"/j", len(pl.rnd))
 		if j == i {
 			break
 		}
@@ -225,7 +241,7 @@ func (g *G[P, F, S]) drawOpnd(t *rapid.T, label string, pSpecial int, subOnly bo
 		o.a = new(big.Int).Mod(new(big.Int).Add(o.a, pl.rnd[j].a), g.ref.N)
 		o.rep = "sum"
 	case 2:
-		j := rapid.IntRange(0, len(pl.rnd)-1).Draw(t, label+"/j")
+		j := uniform(t, label+"/j", len(pl.rnd))
 		if j == i {
 			break
 		}
